@@ -173,6 +173,7 @@ theorem specUpdate_eq (sdb : Spec.SDB) (table : Bytes) (sets : List (Bytes × Sq
     Spec.specUpdate sdb table sets w =
       (Spec.findTable sdb table).bind fun t =>
         if sets.any (fun p => match p.2 with | .col _ => true | _ => false) then none else
+        if !Spec.namesOK t (sets.map fun p => Spec.nameStr p.1) then none else
         (Spec.selects t w).bind fun sel =>
           ((t.rows.zip sel).mapM (specUpdRow t.cols sets)).bind fun rows' =>
             some (sdb.map fun x => if x.name == table then { x with rows := rows' } else x) := rfl
@@ -244,7 +245,8 @@ theorem live_keys_nodup {t : Levels} (hasc : KeysAsc t) : ((live t).map (·.key)
 
 /-- the loop of `evalUpdate` over distinct row ids of live cells that can be rewritten -/
 theorem evalUpdate_go_spec (db : Engine.DB) (table : Bytes) (pt sch : Levels) (schema : List FieldDef)
-    (hsch : schemaOf sch table = some schema) (sets : List (Bytes × Sql.VExpr)) :
+    (hsch : schemaOf sch table = some schema) (sets : List (Bytes × Sql.VExpr))
+    (hnames : checkColumns schema (sets.map fun p => Engine.bytesToName p.1) = none) :
     ∀ (ids : List (Nat × List Val)) (s : Store) (tbls : List (Bytes × Levels)) (t : Levels)
       (batch : List WalRec),
       Cat s pt sch tbls → (table, t) ∈ tbls → (ids.map (·.1)).Nodup →
@@ -274,11 +276,11 @@ theorem evalUpdate_go_spec (db : Engine.DB) (table : Bytes) (pt sch : Levels) (s
     obtain ⟨s1, l, d, _, _, e1, hc1, _, hlk1, _, hnf1, _⟩ := update_cat h table t ht schema hsch r.1
       (sets.map fun p => Engine.bytesToName p.1)
       (sets.map fun p => match p.2 with | .lit l => Engine.litToVal l | .col _ => Val.null)
-      c hc hck m buf hdec henc' hsz
+      hnames c hc hck m buf hdec henc' hsz
     have hlive1 : live (setVal t r.1 s.hdr.nextLSN buf) =
         (live t).map (fun c => if c.key == r.1 then { c with val := buf } else c) :=
       update_live t r.1 s.hdr.nextLSN buf
-    obtain ⟨s', t', logs', ego, hc', hl', hlen', hlk', hnf'⟩ := evalUpdate_go_spec db table pt sch schema hsch sets
+    obtain ⟨s', t', logs', ego, hc', hl', hlen', hlk', hnf'⟩ := evalUpdate_go_spec db table pt sch schema hsch sets hnames
       rest s1 (setTable tbls table (setVal t r.1 s.hdr.nextLSN buf)) (setVal t r.1 s.hdr.nextLSN buf)
       (batch ++ [⟨c_OpUpdate, s.hdr.nextLSN, l.off, r.1, buf⟩]) hc1 (mem_setTable_self _ ht) hnd.2
       (fun r' hr' => by
